@@ -248,6 +248,7 @@ def _validate(ctx):
                    ('unknown claim event', ('names a claim event the interface does not have',)),
                    ('unknown release event', ('names a release event the interface does not have',)),
                    ('granting value not in the enum', ('names a granting value',)), ('claim event replying void', ('replies void',)),
+                   ('ambiguous reply enum', ('two enums on the scope chain',)),
                    ('multi-client on an STS port', ('STS semantics',)),
                    ('fixture only on the named provides port', ('does not name gets', 'requires port gets', 'although none is configured'))]
         for label, keys in aspects:
